@@ -78,8 +78,16 @@ def cmd_check(pid, tier, only=None, selftest=False):
         def classify(v, _f=fam.name):
             k = _match_known(pid, _f, v, known)
             return k['id'] if k else None
-        rep = X.explore(modname, fam, tier, seed=seed, selftest=selftest, dump_max=dump_max,
-                        classify=classify, want_digest=getattr(mod, 'WANT_DIGEST', False))
+        try:
+            rep = X.explore(modname, fam, tier, seed=seed, selftest=selftest, dump_max=dump_max,
+                            classify=classify, want_digest=getattr(mod, 'WANT_DIGEST', False))
+        except Exception as err:     # noqa
+            if type(err).__name__ != 'BrokenProcessPool':
+                raise
+            # a worker died (signal): no verdict for this family, never a VIOLATION line
+            harness_errors.append('%s: a worker process died while exploring this family (%s)'
+                                  % (fam.name, err))
+            continue
         for kid, cnt in rep['known_hits'].items():
             k = next(k for k in known if k['id'] == kid)
             known_hits.setdefault(kid, [k, 0])[1] += cnt
